@@ -433,7 +433,8 @@ def rule_rank(ctx):
         if reg is None:
             continue
         rr.instances += 1
-        ip = reg.cfg.get('input_parser')
+        from ..registry import undecorate
+        ip = undecorate(reg.cfg.get('input_parser'))
         if isinstance(ip, FuncV) and ip.fi is lp:
             rr.ok('OPERATORS[%r] uses logic_input_parser' % key, reg.site)
         else:
@@ -577,5 +578,8 @@ def rule_pow(ctx):
 
 
 def run(ctx):
+    from .common import rule_memo
     return [rule_optable(ctx), rule_errfirst(ctx), rule_rank(ctx),
-            rule_funnel(ctx), rule_pow(ctx)]
+            rule_funnel(ctx), rule_pow(ctx),
+            rule_memo(ctx, 'C02', 'C02.memo',
+                      list(ctx.registry.operators.values()))]
